@@ -1,5 +1,6 @@
 (* C13 model driver: `open C13_m`, conv.inc and Common are prepended by bin/build_driver.
-   The four boost quadratures are external code (the Section variable I of the model); the driver instantiates
+   Two of the four boost quadratures (gauss<double,30>, trapezoidal) are model terms (C13_Model2.v) and compared bit for bit; the other two
+   (gauss_kronrod<double,31>, tanh_sinh<double>) are external code (the Section variable I of the model); the driver instantiates
    them with a stand-in of its own: a composite 30-point Gauss-Legendre rule on 2 panels built from the model's
    gl_integrate.  Cases with a boost method are therefore compared at the accuracy of the method (checks/C13.py),
    cases with libphysica's own back ends ("Gauss-Legendre_2", "Adaptive-Simpson") to rounding.
@@ -38,6 +39,10 @@ let stand_in (_ : backend) (g : float -> float res) (a : float) (b : float) : fl
     done;
     Ok !acc
   with Stop r -> r
+
+(* "Gauss-Legendre" (boost gauss<double,30>) and "Trapezoidal" (boost trapezoidal, default tolerance and refinements) are the model's own
+   terms boost_gauss30 / boost_trapezoidal (C13_Model2.v); gauss_kronrod<31> and tanh_sinh stay with the stand-in rule *)
+let backends : backend -> (float -> float res) -> float -> float -> float res = with_modelled_backends fops stand_in
 
 let no_mc _ _ _ _ = failwith "Monte-Carlo methods are modelled in C14"
 
@@ -79,7 +84,7 @@ let rec eval_user u x y z : float =
         | 2 -> Call_2d (dm, dp, (fun a b -> eval_user u' a b 0.0), l.(0), l.(1), l.(2), l.(3))
         | 3 -> Call_3d (dm, dp, (fun a b c -> eval_user u' a b c), l.(0), l.(1), l.(2), l.(3), l.(4), l.(5))
         | _ -> Call_spherical (dm, dp, (fun a b c -> eval_user u' a b c), l.(0), l.(1), l.(2), l.(3), l.(4), l.(5))) in
-      (match run_call fops stand_in no_mc c with
+      (match run_call fops backends no_mc c with
        | Ok i -> eval_fexpr u.e [| x; y; z; i |]
        | other -> raise (Inner_stop other))
   | None ->
@@ -87,7 +92,7 @@ let rec eval_user u x y z : float =
   | None -> eval_fexpr u.e [| x; y; z; 0.0 |]
   | Some (im, ip, lo, hi, inn) ->
       let v = [| x; y; z; 0.0 |] in
-      (match integrate_named fops stand_in im (fun t -> Ok (eval_fexpr inn [| x; y; z; t |])) (eval_fexpr lo v) (eval_fexpr hi v) ip with
+      (match integrate_named fops backends im (fun t -> Ok (eval_fexpr inn [| x; y; z; t |])) (eval_fexpr lo v) (eval_fexpr hi v) ip with
        | Ok i -> eval_fexpr u.e [| x; y; z; i |]
        | other -> raise (Inner_stop other))
 
@@ -107,7 +112,7 @@ let build_call op r : float call * recd * int * bool =
             let outer x i = rc.n <- rc.n + 1; rc.digest <- rc.digest +. x; see rc 0 x; eval_fexpr u.e [| x; 0.0; 0.0; i |] in
             let inner x t = eval_fexpr inn [| x; 0.0; 0.0; t |] in
             let flo x = eval_fexpr lo [| x; 0.0; 0.0; 0.0 |] and fhi x = eval_fexpr hi [| x; 0.0; 0.0; 0.0 |] in
-            reentrant_integrand fops stand_in im ip outer inner flo fhi in
+            reentrant_integrand fops backends im ip outer inner flo fhi in
       (Call_1d (m, p, f, a, b), rc, 1, u.deep <> None)
   | "nested2d" ->
       let x1 = num r in let x2 = num r in let y1 = num r in let y2 = num r in
@@ -155,7 +160,7 @@ let handler r =
         acc := build_call op r :: !acc
       done;
       let calls = List.rev !acc in
-      let results = run_session fops stand_in no_mc (List.map (fun (c, _, _, _) -> c) calls) in
+      let results = run_session fops backends no_mc (List.map (fun (c, _, _, _) -> c) calls) in
       List.iteri (fun j res ->
         let (_, rc, dims, deep) = List.nth calls j in
         if put_res res then begin
@@ -178,18 +183,18 @@ let handler r =
       (* the call made before main, then the same call made from main: the model's process with one call in each phase *)
       let op = word r in
       let (c, rc, dims, deep) = build_call op r in
-      (match run_process fops stand_in no_mc [c] [] with
+      (match run_process fops backends no_mc [c] [] with
        | [res] ->
            if put_res res then begin
              put_tail rc dims deep res;
-             (match run_process fops stand_in no_mc [] [c] with
+             (match run_process fops backends no_mc [] [c] with
               | [Ok v] -> put_f v
               | _ -> put_w "MODELERR main_phase")
            end
        | _ -> put_w "MODELERR process_shape")
     end else begin
       let (c, rc, dims, deep) = build_call op r in
-      let res = run_call fops stand_in no_mc c in
+      let res = run_call fops backends no_mc c in
       if put_res res then put_tail rc dims deep res
     end
   with
